@@ -48,6 +48,13 @@ def build(rng, tier):
             if rng.chance(1, 6): cases.append(K.mk(tree, 'GET', t0, ws=f's:{k}.1.2.{rng.range(1,50)}', kind='boundary-multi'))
         for k in (0, 1, 2):
             cases.append(K.mk(tree, 'GET', t0, ws=f'e:{k}', kind='write-error'))
+        # responses larger than one 64 KiB block under short writes (a blockwise sender must not lose its place)
+        if ti == 0:
+            big = bytes((j * 131 + (j >> 8) * 29 + (j >> 16) * 7 + 17) & 0xff for j in range(77292))
+            tree.file(tree.cwd + b'/big.bin', big)
+            for ws in ('c:8192', 'c:40000', 'c:65535', 'c:65536', 'c:65537', 'c:1000', 's:65536.1.2.3', 's:70000.7', 'c:100000'):
+                cases.append(K.mk(tree, 'GET', '/big.bin', ws=ws, entry=rng.choice(['proc', 'preq']), kind='big-chunk'))
+                cases.append(K.mk(tree, 'GET', '/big.bin', [('Range', 'bytes=5-70004')], ws=ws, kind='big-chunk'))
         cases.append(K.mk(tree, 'GET', t0, flush='e', kind='flush-error'))
         cases.append(K.mk(tree, 'GET', t0, flush='e', entry='preq', kind='flush-error'))
         batches.append((tree, cases))
